@@ -37,6 +37,12 @@ def observe(case, variant=0):
     warnings.filterwarnings("ignore")
     op, p, X = case["op"], case["p"], case["X"]
     cells = "series" if variant % 2 == 0 else "array"
+
+    def mk(cls, params, other):
+        # every fifth case: built with other parameters and re-parameterised with set_params
+        if variant % 5 == 4:
+            return cls(**other).set_params(**params)
+        return cls(**params)
     try:
         if op in ("impute", "acf", "minmax"):
             s = pd.Series([np.nan if x == MISS else float(x) for x in X[0][0]],
@@ -59,13 +65,13 @@ def observe(case, variant=0):
             Xn = from_nested_to_3d_numpy(Xn)
         if op == "pad":
             from sktime.transformations.panel.padder import PaddingTransformer
-            out = PaddingTransformer(pad_length=p["L"] or None, fill_value=p["fill"]).fit_transform(Xn)
+            out = mk(PaddingTransformer, dict(pad_length=p["L"] or None, fill_value=p["fill"]), dict(pad_length=50, fill_value=-9)).fit_transform(Xn)
         elif op == "truncate":
             from sktime.transformations.panel.truncation import TruncationTransformer
-            out = TruncationTransformer(lower=p["lo"] or None, upper=p["hi"] or None).fit_transform(Xn)
+            out = mk(TruncationTransformer, dict(lower=p["lo"] or None, upper=p["hi"] or None), dict(lower=1, upper=2)).fit_transform(Xn)
         elif op == "interpolate":
             from sktime.transformations.panel.interpolate import TSInterpolator
-            out = TSInterpolator(p["L"]).fit_transform(Xn)
+            out = mk(TSInterpolator, dict(length=p["L"]), dict(length=11)).fit_transform(Xn)
         elif op == "tabularize":
             from sktime.transformations.panel.reduce import Tabularizer
             out = Tabularizer().fit_transform(Xn)
@@ -76,13 +82,13 @@ def observe(case, variant=0):
             out = ColumnConcatenator().fit_transform(Xn)
         elif op == "paa":
             from sktime.transformations.panel.dictionary_based import PAA
-            out = PAA(num_intervals=p["k"]).fit_transform(Xn)
+            out = mk(PAA, dict(num_intervals=p["k"]), dict(num_intervals=1)).fit_transform(Xn)
         elif op == "intervals":
             from sktime.transformations.panel.segment import IntervalSegmenter
-            out = IntervalSegmenter(p["k"]).fit_transform(Xn)
+            out = mk(IntervalSegmenter, dict(intervals=p["k"]), dict(intervals=1)).fit_transform(Xn)
         elif op == "sliding":
             from sktime.transformations.panel.segment import SlidingWindowSegmenter
-            out = SlidingWindowSegmenter(window_length=p["w"]).fit_transform(Xn)
+            out = mk(SlidingWindowSegmenter, dict(window_length=p["w"]), dict(window_length=7)).fit_transform(Xn)
         elif op == "row_mean":
             from sktime.transformations.panel.compose import SeriesToPrimitivesRowTransformer
             from sklearn.preprocessing import FunctionTransformer
